@@ -391,6 +391,16 @@ func genPoolExpiry(r *rand.Rand, idx int, emit func(string)) {
 	g.client("n3", "geth", "good")
 	g.client("n7", "geth", "good")
 	g.dump()
+	if idx%30 == 4 {
+		// a tracked peer crosses the expiry boundary while it is not reported any more (its recorded check-in only
+		// ages with real time)
+		emit(fmt.Sprintf("setnode n0 %s 1 geth ~ ~ 1", TTok(-118500*int64(time.Millisecond))))
+		g.update("n7", "good", []string{"n0", "n1"}, 0)
+		g.dump()
+		emit("sleep 1700")
+		g.update("n7", "good", [][]string{{}, {}, {"stranger0"}, {"n7"}, {"n1"}}[r.Intn(5)], 0)
+		g.dump()
+	}
 	for i := 0; i < 6+r.Intn(14); i++ {
 		switch k := r.Intn(10); {
 		case k < 3:
